@@ -411,10 +411,21 @@ impl<'t, A> Fold<'t, A> for TreeExhaustiveness {
                 // sub-tree of a match. The same applies to each branch of a disjunctive term, as
                 // in `<{*/*/,*/*/}:1,>`.
                 fn is_finalizable(variance: &TokenVariance<Depth>) -> bool {
-                    matches!(
-                        variance,
-                        Invariant(Depth::ZERO) | Invariant(Depth::ONE) | Variant(_),
-                    )
+                    match variance {
+                        Invariant(Depth::ZERO) | Invariant(Depth::ONE) => true,
+                        Invariant(_) => false,
+                        // Sums of a range like three to four have gaps (five), as in
+                        // `<<*/:1,2>*/*/:1,>`. Sums of a range that begins at zero or one or that
+                        // has no upper bound do not.
+                        Variant(ref range) => {
+                            !variance.has_upper_bound()
+                                || range
+                                    .lower()
+                                    .into_bound()
+                                    .bounded()
+                                    .map_or(true, |lower| lower.get() <= 1)
+                        },
+                    }
                 }
 
                 let is_finalizable = match term {
